@@ -398,7 +398,8 @@ def tree_hazards(t, fl):
         if "s" in v:
             s = v["s"]
             if in_range:
-                if len(s) >= 3 and s[0] == '"' and s[-1] == '"':
+                # `[""a"" TO ..]` keeps one pair of quotes, `[\ TO ..]` (a lone backslash) is the empty string
+                if (len(s) >= 3 and s[0] == '"' and s[-1] == '"') or s == "":
                     hs.add("string-bound")
             else:
                 hs.update(value_hazards(s))
